@@ -22,10 +22,10 @@ import (
 	"go/parser"
 	"go/token"
 	"go/types"
+	"runtime"
 	"sort"
 	"strconv"
 	"strings"
-	"runtime"
 	"sync"
 	"sync/atomic"
 	"syscall"
@@ -42,18 +42,18 @@ import (
 type vgKind uint8
 
 const (
-	vkFunc  vgKind = iota // func f0() { refs }
-	vkMethV               // func (r R) m() { refs }       R = receiver object (struct or generic type)
-	vkMethP               // func (r *R) m() { refs }
-	vkStruct              // type s0 struct { f int; embedded... }
-	vkIface               // type i0 interface { m(); embedded interfaces... }
-	vkVar                 // var v0 int | var v0 T | var v0 = func() T { refs; return zero }()
-	vkConst               // const c0 = 1 (+ other constants)
-	vkGroup               // const ( a0 = iota; b0 )
-	vkAlias               // type al0 = T | int
-	vkGFunc               // func g0[T any](x T) { refs }
-	vkGType               // type h0[T any] struct { f T }
-	vkVarAnon             // var w0 struct { x int }    (only in C17's alphabet: rule 11.1, anonymous struct types)
+	vkFunc    vgKind = iota // func f0() { refs }
+	vkMethV                 // func (r R) m() { refs }       R = receiver object (struct or generic type)
+	vkMethP                 // func (r *R) m() { refs }
+	vkStruct                // type s0 struct { f int; embedded... }
+	vkIface                 // type i0 interface { m(); embedded interfaces... }
+	vkVar                   // var v0 int | var v0 T | var v0 = func() T { refs; return zero }()
+	vkConst                 // const c0 = 1 (+ other constants)
+	vkGroup                 // const ( a0 = iota; b0 )
+	vkAlias                 // type al0 = T | int
+	vkGFunc                 // func g0[T any](x T) { refs }
+	vkGType                 // type h0[T any] struct { f T }
+	vkVarAnon               // var w0 struct { x int }    (only in C17's alphabet: rule 11.1, anonymous struct types)
 	vkNumKinds
 )
 
@@ -745,8 +745,8 @@ func (s *vgSpec) canonical(perms [][]int) bool {
 
 type vgBounds struct {
 	MaxN     int
-	MaxEdges []int // index n: maximal number of edges for packages of n objects (-1: no limit)
-	MaxExp   []int // index n: maximal number of exported objects
+	MaxEdges []int            // index n: maximal number of edges for packages of n objects (-1: no limit)
+	MaxExp   []int            // index n: maximal number of exported objects
 	Forms    [vfNumForms]bool // forms available to packages of up to CoreFrom-1 objects
 	CoreFrom int              // packages with at least this many objects use only the core forms (0: never)
 	Kinds    []vgKind
@@ -1339,4 +1339,3 @@ func vgRunTasks(res *vx.Result, b *vgBounds, f func(*vgSpec)) (specs, inadm, non
 	}
 	return nSpecs.Load(), nInadm.Load(), nNoncanon.Load(), completed
 }
-
